@@ -7,6 +7,8 @@
      W <eq-hex> <lhs> / <rhs>     a normalised equation proposed as token lists (comma separated, "." = empty list):
                                   T<name-hex>:i<int> | T<name-hex>:s<hex> | F<hex> | K<hex> | V<hex> | C<hh>
                                   -> 1 (neq_wf and neq_text = the equation) | 0w (not well-formed) | 0t (other text)
+     D <eq-hex> <code-hex> <lhs> / <rhs>   the same proposal against the conditions of the fixed-point theorem of C14
+                                  -> 1:<denorm_text-hex> (Denorm.dq_ok, neq_text = equation, neq_code = code) | 0d | 0t | 0c
      P <hex>                      parse_model(check_syntax=False)      -> O:<symbols> | E:<class> | U
      Q <hex>                      parse_equation                        -> as P
      T <hex>                      m.group(0) of term_re.finditer        -> <hex>,<hex>,... *)
@@ -89,6 +91,10 @@ let answer (line : string) : unit =
   | ["W"; e; l; "/"; r] ->
     let q = { nlhs = toks_of l; nrhs = toks_of r } in
     print_endline (if not (neq_wf q) then "0w" else if neq_text q = unhex e then "1" else "0t")
+  | ["D"; e; c; l; "/"; r] ->
+    let q = { nlhs = toks_of l; nrhs = toks_of r } in
+    print_endline (if not (dq_ok q) then "0d" else if neq_text q <> unhex e then "0t" else if neq_code q <> unhex c then "0c"
+                   else "1:" ^ hex (denorm_text q))
   | ["P"; h] -> print_endline (res_s (parse_model_nocheck (unhex h)))
   | ["P"] -> print_endline (res_s (parse_model_nocheck []))
   | ["Q"; h] -> print_endline (res_s (parse_equation_M (unhex h)))
